@@ -15,6 +15,8 @@ import subprocess
 
 import lib
 
+KF_DETACHED_REASON = "panic-after-detached-handler"
+
 INFRA = ("malformed-graph", "bad-event-line", "trace-truncated", "end-without-graph",
          "bad-sim-line")
 
@@ -213,6 +215,18 @@ def report_rejects(ctx, go, model, results, prop, limit=3):
         if verdict == "accept":
             continue
         reason = " ".join(verdict.split()[2:])
+        if reason == KF_DETACHED_REASON:
+            # known finding KF-C16-1 (known_findings.d/C16.json): the driver found a handler that was accepted into an
+            # already failed context and was still open when its owner closed, and then the process panicked
+            ctx.histogram["finding:KF-C16-1-panic-after-detached-handler"] += 1
+            if not ctx.extra.get("kf_c16_1_panic"):
+                ctx.extra["kf_c16_1_panic"] = dict(case=[l.strip() for l in case],
+                                                   trace=[l.strip() for l in trace if l[:1].isdigit()][-30:], monitor=verdict)
+                ctx.known("KF-C16-1", "a handler accepted into an already failed context runs detached from its owner "
+                          "(scope.NewChild does not register a child of a done scope); when it closes after its owner its "
+                          "events reach a closed scope: nil dereference in a bare goroutine, the process dies (%s, case %s)"
+                          % (verdict, case[0].split()[1]))
+            continue
         if reason == "event-about-unknown-task":
             # The implementation ran a task the submitted graph does not contain (e.g. a handler registered
             # under another name).  That is a deviation from the model by itself; to see whether the
